@@ -1503,5 +1503,95 @@ pub fn main(opts: &Opts) {
         live = next;
     }
     sink.notes.push(format!("variant={variant} prop={prop}"));
+    // C02 outside what the configuration type can express: installed terms whose route-filters use a
+    // match type the agent never writes and its reader cannot represent (`orlonger`, `exact`, `upto`, …),
+    // or that hold elements it does not know. Such a filter accepts routes no evaluated set accounts
+    // for; an update merged into that term would leave it in place, so the run must stop before anything
+    // is loaded (the same rule as `specx`, here with the raw reply text).
+    if opts.replay.is_none() && (prop == "all" || prop == "C02") {
+        let rf = |inner: &str| format!("<route-filter><address>0.0.0.0/0</address>{inner}</route-filter>");
+        let good = "<route-filter><address>192.0.2.0/24</address><choice-ident>prefix-length-range</choice-ident><choice-value>/24-/32</choice-value></route-filter>";
+        let raws: Vec<(&str, String)> = vec![
+            ("orlonger-empty", rf("<orlonger/>")),
+            ("exact-empty", rf("<exact/>")),
+            ("longer-empty", rf("<longer/>")),
+            ("orlonger-choice", rf("<choice-ident>orlonger</choice-ident><choice-value/>")),
+            ("exact-choice", rf("<choice-ident>exact</choice-ident><choice-value/>")),
+            ("longer-choice", rf("<choice-ident>longer</choice-ident><choice-value/>")),
+            ("upto-choice", rf("<choice-ident>upto</choice-ident><choice-value>/24</choice-value>")),
+            ("through-choice", rf("<choice-ident>through</choice-ident><choice-value>10.0.0.0/8</choice-value>")),
+            ("address-mask-choice", rf("<choice-ident>address-mask</choice-ident><choice-value>255.0.0.0</choice-value>")),
+            ("prefix-list", "<prefix-list><name>all</name></prefix-list>".to_string()),
+            ("prefix-list-filter", "<prefix-list-filter><list_name>all</list_name><orlonger/></prefix-list-filter>".to_string()),
+            ("source-address-filter", "<source-address-filter><address>0.0.0.0/0</address><orlonger/></source-address-filter>".to_string()),
+        ];
+        for (tag, extra) in &raws {
+            for (pos, first) in [("before", true), ("after", false)] {
+                let filters = if first { format!("{extra}{good}") } else { format!("{good}{extra}") };
+                let xml = format!(
+                    "{HDR}<policy-options><policy-statement><name>p1</name><term><name>inet</name><from><family>inet</family>{filters}</from><then><accept/></then></term><then><reject/></then></policy-statement></policy-options>{TRL}"
+                );
+                for (evtag, v4) in [("same", vec!["192.0.2.0/24,24,32".to_string()]), ("other", vec!["198.51.100.0/24,24,24".to_string()])] {
+                    let ev: EvImpl = vec![("p1".into(), tag_expr(1), Some((v4.clone(), vec![])))];
+                    let x2 = xml.clone();
+                    let r = catch(move || agent::verif::plan(&x2, &ev));
+                    let case = format!("foreign.raw.{tag}.{pos}.{evtag}");
+                    let verdict = match r {
+                        Err(_) => "ok".to_string(),
+                        Ok(p) if p.is_empty() => "ok".to_string(),
+                        Ok(_) => "violation update-into-unreadable-configuration".to_string(),
+                    };
+                    sink.direct(&case, verdict);
+                    sink.count("foreign.raw");
+                }
+            }
+        }
+    }
+    // C03 with an annotation the reader cannot even unescape (`&nbsp;`, a bare `&`, `&#0;` in the
+    // attribute value — not well-formed, so Junos never sends it, but it is what a damaged or hostile
+    // reply looks like): the statement still carries the management mark. Either the whole read fails
+    // (nothing is loaded) or the statement is kept as a candidate that cannot be evaluated; it must never
+    // be treated as "no longer managed" and have its installed policy deleted.
+    if opts.replay.is_none() && (prop == "all" || prop == "C03") {
+        let installed = vec![
+            agent_policy("p1", &universe(false)[0..1], &[], false),
+            agent_policy("p2", &universe(false)[1..2], &[], false),
+        ];
+        for bad in ["AS-FOO&nbsp;", "AS-FOO & AS-BAR", "AS-FOO&#0;", "AS&bogus;-FOO", "&#xD800;AS-FOO", "AS-FOO&"] {
+            for order in [0, 1] {
+                let a = format!(
+                    "<policy-statement xmlns:jcmd=\"http://yang.juniper.net/junos/jcmd\" jcmd:comment=\"/* bgpfu-fltr: {bad} */\"><name>p1</name><then><reject/></then></policy-statement>"
+                );
+                let b = format!(
+                    "<policy-statement xmlns:jcmd=\"http://yang.juniper.net/junos/jcmd\" jcmd:comment=\"/* bgpfu-fltr: {} */\"><name>p2</name><then><reject/></then></policy-statement>",
+                    tag_expr(2)
+                );
+                let stmts = if order == 0 { format!("{a}{b}") } else { format!("{b}{a}") };
+                let running = format!("{HDR}<policy-options>{stmts}</policy-options>{TRL}");
+                let case = format!("c03.unreadable-annotation.{}.{order}", hexs(bad));
+                let verdict = match catch(move || agent::verif::read_candidates(&running)) {
+                    Err(_) => "ok".to_string(),
+                    Ok(cands) => {
+                        let ev: EvImpl = cands
+                            .iter()
+                            .map(|(n, e)| (n.clone(), e.clone(), parses(e).map(|_| (vec!["192.0.2.0/24,24,32".to_string()], vec![]))))
+                            .collect();
+                        match real_plan(&installed, &ev) {
+                            Err(_) => "ok".to_string(),
+                            Ok(pl) => {
+                                if pl.iter().any(|p| p.contains("<name>p1</name>")) {
+                                    "violation unreadable-annotation-policy-touched".to_string()
+                                } else {
+                                    "ok".to_string()
+                                }
+                            }
+                        }
+                    }
+                };
+                sink.direct(&case, verdict);
+                sink.count("c03.unreadable-annotation");
+            }
+        }
+    }
     sink.write(opts, "plan");
 }
